@@ -143,12 +143,23 @@ def checkC05 (toks : List String) (res : String) : Option Verdict :=
     let op ← parseBinOp op; let dl ← dl.toNat?; let nl ← parseIntTy nl; let dr ← dr.toNat?; let nr ← parseIntTy nr
     let l ← parseIntX5 l; let r ← parseIntX5 r
     let x : ENum := ⟨dl, nl, l⟩; let y : ENum := ⟨dr, nr, r⟩
-    let guard := decide x.InRange && decide y.InRange
+    let guard := decide x.InRange && decide y.InRange && !((op == .div || op == .mod) && r == 0)
     let spec : Option Bool := if !guard then none else
       match parseElResX res with
       | some (d, sg, v) => some (v == exactBin op l r && withinDigits d sg v)
       | none => some false
     some { model := showRes showENumX (Elastic.xBin op x y), spec := spec, branch := "xbin/" ++ toks[1]!, nontrivial := guard }
+  | ["xident", dl, nl, dr, nr, l, r] => do
+    -- `(n / d) * d + n % d` evaluated in elastic arithmetic (multi-word storage included): must give `n` back
+    let dl ← dl.toNat?; let nl ← parseIntTy nl; let dr ← dr.toNat?; let nr ← parseIntTy nr
+    let l ← parseIntX5 l; let r ← parseIntX5 r
+    let x : ENum := ⟨dl, nl, l⟩; let y : ENum := ⟨dr, nr, r⟩
+    let guard := decide x.InRange && decide y.InRange && r != 0
+    let spec : Option Bool := if !guard then none else
+      match parseElResX res with
+      | some (d, sg, v) => some (v == l && withinDigits d sg v)
+      | none => some false
+    some { model := showRes showENumX (Elastic.xDivModIdentity x y), spec := spec, branch := "xident", nontrivial := guard }
   | ["xcmp", op, dl, nl, dr, nr, l, r] => do
     let op ← parseCmpOp op; let dl ← dl.toNat?; let nl ← parseIntTy nl; let dr ← dr.toNat?; let nr ← parseIntTy nr
     let l ← parseIntX5 l; let r ← parseIntX5 r
